@@ -207,7 +207,7 @@ def rule_saved_state_restored(ctx, rep, rid: str, modules: Tuple[str, ...] = ("p
                         rep.ok(rid, key, {"restores": len(restores)})
                     else:
                         o, p = bad
-                        rep.bad(rid, key, f"{m.qual} saves self.{attr} in `{local}`, overwrites it at line {o.line} and can return through lines {[x.line for x in p if x.line][:8]} without putting it back (its other exits restore it): the mode stays switched for whatever is parsed next", f"{m.module.rel}:{o.line}")
+                        rep.bad(rid, key, f"{m.qual} saves self.{attr} in `{local}`, overwrites it at line {o.line} and can return through lines {[x.line for x in p if x.line][:8]} without putting it back (its other exits restore it): the temporary value stays in force for whatever runs next (a parser mode for the rest of the source, a step budget refilled for the rest of the match)", f"{m.module.rel}:{o.line}")
     ctl = ast.parse(src)
     for x in ast.walk(ctl):
         for c in ast.iter_child_nodes(x):
